@@ -99,10 +99,10 @@ PROPS = {
     },
     "C02": {
         "props_module": "RedbModel.Props.C02",
-        "streams": [("history", ["--focus", "c02"], "history")],
-        "rule": 'a case is one random history of whole-database steps (write transactions of every durability / two-phase / quick-repair mix with table, multimap, delete-table and savepoint create/restore/delete operations, ending in commit, abort or drop; begin_read / drop reader; drop savepoint; clean reopen; crash-reopen; compact; check_integrity; list savepoints), page 512..4096, region 64 KiB..default, cache 0..1 GiB; after every step: committed contents vs recorded commit point, every live reader re-read vs its start contents, page accounting from the snapshot hooks, fingerprints of every pinned tree, `hist state` line for the Lean monitor; histories end with a quiescence check; distinct by hash of lines, non-trivial if completed' + " (generator weighted for C02)",
+        "streams": [("history", ["--focus", "c02"], "history"), ("sched", ["--focus", "c02"], "sched")],
+        "rule": 'a case is one random history of whole-database steps (write transactions of every durability / two-phase / quick-repair mix with table, multimap, delete-table and savepoint create/restore/delete operations, ending in commit, abort or drop; begin_read / drop reader; drop savepoint; clean reopen; crash-reopen; compact; check_integrity; list savepoints), page 512..4096, region 64 KiB..default, cache 0..1 GiB; after every step: committed contents vs recorded commit point, every live reader re-read vs its start contents, page accounting from the snapshot hooks, fingerprints of every pinned tree, `hist state` line for the Lean monitor; histories end with a quiescence check; distinct by hash of lines, non-trivial if completed' + " (generator weighted for C02); second stream: the forced two-thread schedules of C03 restricted to pairs in which one call is a read or a reader drop (each schedule one evaluation)",
         "trusted_base": BASE_TRUST + ["modelled, not verified: the page life-cycle of transactions.rs / transaction_tracker.rs / page_manager.rs as the ownership monitor Model/Lifecycle.lean (ownOk, pinOk, moveOk, stepOk, abortOk); owner sets are computed with redb's own tree traversal through the read-only hook (the Lean format decoder checks the same images independently in C10)"],
-        "assumptions": ["single-threaded histories (interleavings are C03/C16)", "preemption inside lock-protected blocks and weak-memory effects are not modelled"],
+        "assumptions": ["histories are single-threaded; thread interleavings of reader and writer calls are covered by the forced schedules of the C03 harness restricted to reader-vs-anything pairs (one preemption per schedule)", "preemption inside lock-protected blocks and weak-memory effects are not modelled"],
         "explanation": 'Lean: pinned snapshot pages never change owner except into later pending-free records, over whole traces; harness: every live read transaction is re-read completely after every later step of any kind and compared with the contents at its begin_read; byte fingerprint of its tree unchanged',
         "timeout": 7000,
     },
@@ -183,12 +183,47 @@ PROPS = {
         "assumptions": ["only release 3.0.0; 4 KiB pages (3.0.0 has no page-size setter)"],
         "explanation": "Lean: routing by comparison alone finds exactly the entries on any checked tree (shortened separators are legal for an old reader), separators are valid encodings, fixed-width keys never shortened; correspondence: files cross both ways with identical contents and passing integrity checks",
     },
+    "C03": {
+        "props_module": "RedbModel.Props.C03",
+        "streams": [("sched", [], "sched")],
+        "rule": "a case = one first call (Read, WriteNone, WriteImm, Write2pc, WriteQuick, Abort, SavepointCycle, DropReader) on thread T1; evaluations = forced schedules: "
+                "T1 is parked at each pause point it passes (begin_read.registered, commit stages of durable / non-durable commit, mem.commit between headers and before the "
+                "root swap, epilogue, guard/savepoint/transaction drops; backend read/write occurrences sampled in quick, all in thorough) while each of the eight calls runs "
+                "to completion (or blocks) on T2, then T1 resumes; writers update three tables together (version, a, b) so that a reader can tell a torn or stale state; the "
+                "merged event stream (semantic events + pause points in real-time order) goes to the Lean monitor; cache 0 for even seeds, 1 MiB for odd",
+        "trusted_base": BASE_TRUST + ["modelled, not verified: the write slot, root publication and reader registration of transaction_tracker.rs / page_manager.rs / db.rs as the "
+                "interleaving model Model/Conc.lean (atomic actions register, readRoot, read, drop, acquire, body, publish, release; unbounded threads)",
+                "pause points are placed by hand between lock acquisitions (hook H3): a preemption inside a lock-protected block or a weak-memory reordering cannot be exhibited"],
+        "assumptions": ["two threads per schedule, one preemption per schedule (thorough: every pause-point occurrence)", "the harness' event order is real-time order under its own mutex"],
+        "explanation": "Lean: in every execution of the model there is one writer at a time, commits become visible by one atomic publish, in version order; a reader registered after a "
+                       "release reads that version or newer; reads never go backwards; monitor soundness: an accepted event stream is the projection of a model execution. "
+                       "Correspondence: every forced schedule's event stream is accepted by the monitor; oracle (implementation only): cross-table invariant per read, final "
+                       "version = last completed commit, pinned reader unchanged, backend contract",
+        "timeout": 7000,
+    },
+    "C16": {
+        "props_module": "RedbModel.Props.C16",
+        "streams": [("mt", [], "mt")],
+        "rule": "a case = one database; evaluations = (a) write transactions whose 2-4 tables are opened and modified by one thread each (random per-table streams of insert / remove / "
+                "bulk ops, multimap included), with a further thread calling ephemeral_savepoint() and dropping savepoints, ending in commit or abort, each followed by the exact "
+                "contents comparison per table against the stream applied alone and by the page-accounting / ownership check of the history harness (`hist state` line for the Lean "
+                "monitor: no page owned twice, none leaked); (b) forced schedules through the pause points in TableNamespace::set_dirty and WriteTransaction::ephemeral_savepoint "
+                "(before the lock, after the dirty check) against the other call",
+        "trusted_base": BASE_TRUST + ["modelled, not verified: the `tables` lock discipline of transactions.rs as Model/Conc.lean (namespace Tables) and the per-table page ownership as namespace Multi",
+                "OS-chosen interleavings inside the random transactions: which ones occur is not controlled (only the set_dirty / ephemeral_savepoint window is forced)"],
+        "assumptions": ["races on the sharded UncommittedPages sets, PageTracker.tracking and the striped write buffer are exercised only by OS scheduling, not by forced preemption; data races below the lock level are out of reach of this technique"],
+        "explanation": "Lean: operations on different tables commute and a table's contents are the fold of its own stream; page sets of different tables stay disjoint; with the lock, "
+                       "savepoint-exists implies allocation tracking on, and the unlocked variant has a reachable counter-example (so the lock is what the property rests on). "
+                       "Correspondence: forced schedules answer as the locked model; after every multi-threaded transaction the ownership monitor accepts the state; oracle: per-table contents, "
+                       "savepoint usability, page accounting",
+        "timeout": 7000,
+    },
     "C20": {
         "props_module": "RedbModel.Props.C20",
         "streams": [("contract", [], "contract")],
-        "rule": "scenarios per base database: history then drop; read-only open of clean / unclean file; failing opens (bad magic, bad geometry, 4 truncations, 3 extensions, aborted repair, an I/O error at every sampled call index of the open path of a clean and an unclean file, once / permanently); Database dropped while a write transaction is live (commit/abort/drop); read transaction outliving the Database; every scenario's call stream goes through the Lean contract automaton",
+        "rule": "scenarios per base database: history then drop; read-only open of clean / unclean file; failing opens (bad magic, bad geometry, 4 truncations, 3 extensions, aborted repair, an I/O error at every sampled call index of the open path of a clean and an unclean file, once / permanently); Database dropped while a write transaction is live (commit/abort/drop); read transaction outliving the Database; forced schedules: a reader parked (pause point backend.read, cache 0) before its k-th backend read while another thread drops the Database (DESIGN F1, fixed); every scenario's call stream goes through the Lean contract automaton",
         "trusted_base": BASE_TRUST + ["bounds (read/write inside the current length, never shorter than a page in use) are checked by the recording backend and the history harness on the implementation, not by a theorem about the code"],
-        "assumptions": ["single-threaded scenarios; the close-vs-in-flight-call race (DESIGN F1) needs the pause-point hooks and is not yet exercised"],
+        "assumptions": ["schedules: only the close-vs-in-flight-read race is forced (reader parked between the closed-latch test and each of its backend reads while another thread drops the Database); the other scenarios are single-threaded"],
         "explanation": "Lean: automaton theorems (accepted stream = exactly one close, as the last call; read-only stream has no mutation), layout arithmetic (an in-range page lies inside the file; regions disjoint); correspondence: recorded call streams accepted; oracle: backend monitor (bounds, close count, call after close, read-only mutation)",
     },
     "C12": {
